@@ -40,6 +40,11 @@ contains
   subroutine iffy(a)
     real :: a
   end subroutine iffy
+  function weights(a) result(r)
+    integer :: a
+    real :: r
+    r = a
+  end function weights
 end module lib
 """
 
@@ -122,11 +127,13 @@ def stmt_lines(form, args):
         "assoc_section": ["associate (row => sinx(2:3))", "  x = row(1)", "end associate"],
         "assoc_funcsel": [f"associate (z => {a[0]})", "  x = z + z", "end associate"] if a else [],
         "extern": ["x = extf(1.0)"],
+        "shadow_local": [f"x = weights(2) + {a[0]}"] if a else [],
+        "shadow_dummy": ["call inner()"],
         "return": ["x = 0"],
     }[n]
 
 
-DECLS = ["use lib", "use shapes", "implicit none", "type(circle) :: c", "type(circle) :: cs(3)", "real :: extf", "external extf", "type(logger) :: l", "real :: x, callme", "real :: sinx(10)", "real, allocatable :: arr(:)", "integer :: i"]
+DECLS = ["use lib", "use shapes", "implicit none", "type(circle) :: c", "type(circle) :: cs(3)", "real :: extf", "external extf", "type(logger) :: l", "real :: x, callme", "real :: sinx(10)", "real :: weights(3)", "real, allocatable :: arr(:)", "integer :: i"]
 LABELS = ["10 continue", "20 continue", "30 continue"]
 
 
@@ -158,14 +165,19 @@ def _cut(l):
     return 0
 
 
+INNER = ["contains", "  subroutine inner()", "    real :: y", "    y = weights(2)", "    x = y * sinx(1)", "  end subroutine inner"]
+
+
 def render(form, args, unit, style):
     body = layout(stmt_lines(form, args), style) + LABELS
+    if form["n"] == "shadow_dummy":          # an internal procedure that subscripts arrays of its host
+        body = body + (INNER if unit != "function" else [])
     ind = lambda ls, k: ["  " * k + x for x in ls]
     if unit == "program":
         return {"lib.f90": LIB, "shapes.f90": SHAPES, "u.f90": "\n".join(["program u"] + ind(DECLS + body, 1) + ["end program u"]) + "\n"}
     if unit == "subroutine":
         return {"lib.f90": LIB, "shapes.f90": SHAPES, "u.f90": "\n".join(["module host", "contains", "  subroutine u()"] + ind(DECLS + body, 2) + ["  end subroutine u", "end module host"]) + "\n"}
-    return {"lib.f90": LIB, "shapes.f90": SHAPES, "u.f90": "\n".join(["module host", "contains", "  function u() result(res)"] + ind(DECLS + ["real :: res"] + body + ["res = x"], 2)
+    return {"lib.f90": LIB, "shapes.f90": SHAPES, "u.f90": "\n".join(["module host", "contains", "  function u() result(res)"] + ind(DECLS + ["real :: res"] + body + ["res = x"] + (INNER if form["n"] == "shadow_dummy" else []), 2)
                                                + ["  end function u", "end module host"]) + "\n"}
 
 
@@ -184,7 +196,8 @@ def observe(files, unit):
         if type(c).__name__ == "FortranBoundProcedure":
             return f"{c.parent.name}%{c.name}".lower()
         return c.name.lower()
-    return [nm(c) for c in u.calls], [isinstance(c, str) for c in u.calls]
+    inner = next((x for x in getattr(u, "routines", []) if x.name == "inner"), None)
+    return [nm(c) for c in u.calls], [isinstance(c, str) for c in u.calls], ([nm(c) for c in inner.calls] if inner is not None else None)
 
 
 def evaluate(case):
@@ -201,9 +214,12 @@ def evaluate(case):
             if res is None:
                 out.append({"unit": unit, "style": style, "bad": "unit u not reported", "src": files["u.f90"], "tag": "missing"})
                 continue
-            names, unresolved = res
+            names, unresolved, inner_calls = res
             bad = None
             tag = "calls"
+            if form["n"] == "shadow_dummy" and inner_calls != []:
+                out.append({"unit": unit, "style": style, "src": files["u.f90"], "tag": "calls",
+                            "bad": f"internal procedure inner subscripts the host's arrays weights and sinx and invokes nothing: recorded calls {inner_calls}"})
             if sorted(names) != want:
                 extra = sorted(set(names) - set(want))
                 missing = sorted(set(want) - set(names))
